@@ -27,6 +27,7 @@ import (
 
 	"github.com/polynetwork/poly/common"
 	"github.com/polynetwork/poly/common/verifhook"
+	cstates "github.com/polynetwork/poly/core/states"
 	"github.com/polynetwork/poly/core/store/ledgerstore"
 	"github.com/polynetwork/poly/core/types"
 	"github.com/polynetwork/poly/native"
@@ -49,12 +50,56 @@ func regArgs(k *polyenv.Acct) []byte {
 	return s.Bytes()
 }
 
+// Large blocks: sizes chosen well above any plausible write-batch chunk size (a chunked writer would flush
+// long before) while still executing in a fraction of a second.
+const (
+	largeKeys = 1500 // kind L: ONE transaction writing this many distinct contract-storage keys (state-store batch)
+	largeTxs  = 1100 // kind M: this many tiny transactions (block-store + event-store batches, one state key each)
+)
+
+// bulk is a driver-registered native contract (same technique as engine/lib/probe, whose cells are a single
+// byte): "fill"(n, tag) puts n distinct keys through the REAL CacheDB of the REAL NativeService.
+var bulkAddr = common.Address{0xC1, 0x2B, 'v', 'e', 'r', 'i', 'f', '-', 'b', 'u', 'l', 'k', 0, 0, 0, 0, 0, 0, 0, 0x01}
+
+func bulkFill(s *native.NativeService) ([]byte, error) {
+	src := common.NewZeroCopySource(s.GetInput())
+	n, eof1 := src.NextUint32()
+	tag, eof2 := src.NextUint32()
+	if eof1 || eof2 {
+		return utils.BYTE_FALSE, fmt.Errorf("bulk: bad input")
+	}
+	for i := uint32(0); i < n; i++ {
+		s.GetCacheDB().Put(utils.ConcatKey(bulkAddr, []byte(fmt.Sprintf("k%d/%d", tag, i))), cstates.GenRawStorageItem([]byte(fmt.Sprintf("v%d.%d", tag, i))))
+	}
+	return utils.BYTE_TRUE, nil
+}
+
+func installBulk() {
+	native.Contracts[bulkAddr] = func(s *native.NativeService) { s.Register("fill", bulkFill) }
+}
+
+func bulkTx(n, tag, nonce uint32, signer *polyenv.Acct) *types.Transaction {
+	sink := common.NewZeroCopySink(nil)
+	sink.WriteUint32(n)
+	sink.WriteUint32(tag)
+	return polyenv.Tx(bulkAddr, "fill", sink.Bytes(), nonce, polyenv.Single(signer))
+}
+
 // txsFor: deterministic transactions of a block of the given kind at the given height.
 func txsFor(kind byte, height uint32, vals []*polyenv.Acct) []*types.Transaction {
 	switch kind {
 	case 'G': // state-changing: a fresh key registers itself as candidate
 		k := polyenv.Key(100 + int(height))
 		return []*types.Transaction{polyenv.Tx(utils.NodeManagerContractAddress, node_manager.REGISTER_CANDIDATE, regArgs(k), height, polyenv.Single(k))}
+	case 'L': // one transaction, largeKeys written keys
+		return []*types.Transaction{bulkTx(largeKeys, height, height, polyenv.Key(500+int(height)))}
+	case 'M': // largeTxs tiny transactions (one key each)
+		signer := polyenv.Key(600 + int(height))
+		txs := make([]*types.Transaction, largeTxs)
+		for i := range txs {
+			txs[i] = bulkTx(1, height*100000+uint32(i), height*100000+uint32(i), signer)
+		}
+		return txs
 	case 'X': // cross-chain records: storage cell(h) = "X<h>", cross-state leaves H("X<h>"), H("Y<h>")
 		v := fmt.Sprintf("X%d", height)
 		return []*types.Transaction{probe.Tx([]probe.Op{{C: probe.Put, K: cell(height), V: v}, {C: probe.Merkle, V: v},
@@ -274,6 +319,7 @@ func childMain() {
 	}
 	native.Contracts[utils.NodeManagerContractAddress] = node_manager.RegisterNodeManagerContract
 	probe.Install()
+	installBulk()
 	vals := polyenv.Keys(nVals)
 	polyenv.Setup(0, vals)
 	n := 0
@@ -688,6 +734,7 @@ func main() {
 	}
 	native.Contracts[utils.NodeManagerContractAddress] = node_manager.RegisterNodeManagerContract
 	probe.Install()
+	installBulk()
 	r := ev.Start("C12", "fault_enumeration")
 	debug.SetGCPercent(1000) // every block execution / store open allocates multi-MiB buffers: keep freed spans for reuse
 	L := r.QT(3, 5)
@@ -701,7 +748,7 @@ func main() {
 	verifhook.OnPersist = hook
 	scratch := polyenv.TmpDir("c12")
 	defer os.RemoveAll(scratch)
-	r.Require("recovered@h", "recovered@h-1", "crash-in-genesis-init", "crash-in-block", "path:commit", "path:sync", "cross-state-block-committed")
+	r.Require("large-block-crash", "recovered@h", "recovered@h-1", "crash-in-genesis-init", "crash-in-block", "path:commit", "path:sync", "cross-state-block-committed")
 	workers := runtime.NumCPU()
 	if workers > 16 {
 		workers = 16
@@ -730,11 +777,16 @@ func main() {
 		alphabets = fmt.Sprintf("{E,G,X}^%d", L)
 		gen("", "EGX", L)
 	} else if r.Quick() {
+		alphabets = "{E,G,X}^3 + large blocks: EL, LE, EM, ME, LL"
 		gen("", "EGX", 3)
+		for _, p := range []string{"EL", "LE", "EM", "ME", "LL"} {
+			gen(p, "", len(p))
+		}
 	} else {
-		alphabets = "{E,G,X}^5 + {E,G,F,X}^4"
+		alphabets = "{E,G,X}^5 + {E,G,F,X}^4 + {E,X,L,M}^3"
 		gen("", "EGX", 5)
 		gen("", "EGFX", 4)
+		gen("", "EXLM", 3)
 	}
 	if r.ReplayPath != "" {
 		var d struct {
@@ -765,7 +817,9 @@ func main() {
 				continue
 			}
 			key := fmt.Sprintf("%s|%s|%d", rf.Kinds[:e.Block], rf.Path, k)
-			two := second
+			// quick tier: the second crash inside recovery is enumerated for the first two blocks of the small
+			// histories and for every block of the large-block histories (thorough: everywhere)
+			two := second && (r.Thorough() || e.Block <= 2 || strings.ContainsAny(rf.Kinds, "LM"))
 			if e.Block == 0 {
 				key = fmt.Sprintf("genesis|%s|%d", rf.Path, k)
 				two = second && rf.Path == "commit" // genesis init does not depend on the later commit path
@@ -857,6 +911,9 @@ func main() {
 			r.Class("crash-in-block")
 		}
 		r.Class("path:" + j.rf.Path)
+		if e.Block > 0 && strings.ContainsRune("LM", rune(j.rf.Kinds[e.Block-1])) {
+			r.Class("large-block-crash")
+		}
 		switch {
 		case rec == e.Block:
 			r.Class("recovered@h")
@@ -953,13 +1010,14 @@ func main() {
 	}
 	r.Assume("process-crash model: a completed leveldb write / batch and a completed hash-file write survive; no torn writes, no power-loss reordering",
 		"crash = panic inside the persistence hook before write k, raw stores closed, directory reopened (cross-checked against real child-process exits on the shortest histories)",
-		"block contents: empty, one state-changing registerCandidate, one probe-contract tx (storage write + two PutMerkleVal cross-chain records; engine/lib/probe dispatches to the real NativeService primitives), one failing registerCandidate (thorough only); real cross_chain_manager imports are not in the alphabet",
+		"block contents: empty, one state-changing registerCandidate, one probe-contract tx (storage write + two PutMerkleVal cross-chain records; engine/lib/probe dispatches to the real NativeService primitives), one failing registerCandidate (thorough only), L = one bulk tx writing 1500 keys, M = 1100 one-key txs (driver-registered bulk contract dispatching to the real CacheDB); real cross_chain_manager imports are not in the alphabet",
 		"4 validators, private net (network id 0); blocks are built once by the crash-free twin and replayed byte-identically")
 	os.RemoveAll(scratch) // Finish exits the process: deferred cleanup would not run
 	r.Finish(map[string]any{
 		"rule":                           "crash before every durable write k of genesis init and of every block of every history; reopen == crash-free twin at recovered height (h or h-1, never a mixture); next honest blocks accepted; second reopen equal",
 		"history_length":                 L,
 		"history_alphabets":              alphabets,
+		"large_block_sizes":              map[string]int{"L_keys_written_by_one_tx": largeKeys, "M_transactions": largeTxs},
 		"histories":                      len(hist),
 		"reference_runs":                 nrefs,
 		"commit_paths":                   []string{"ExecuteBlock+SubmitBlock", "AddBlock"},
